@@ -140,8 +140,18 @@ def check_write(mem, version, code, dest_seed, case):
     labs = []
     try:
         g = cartgen.make_game(mem, version=version, code=code)
+        if case.get('lua_version') is not None:
+            # a cart assembled from parts (as `build --lua other.p8` does): its Lua object carries another version
+            # number than the cart; what the file says and how it is read goes by the cart's version
+            from pico8.lua import lua as plua
+            g.lua = plua.Lua.from_lines([code], version=case['lua_version'])
+            labs.append('lua_object_of_other_version')
     except Exception as e:
         raise Violation('cannot build a cart from generated source: %r' % e, case, 'build')
+    # the label argument left out, or passed explicitly as None (documented as "no override")
+    kw = {'label_fname': None} if case.get('explicit_none_label') else {}
+    if kw:
+        labs.append('label_fname_none_passed')
     code0 = b''.join(g.lua.to_lines())
     with tempfile.TemporaryDirectory(prefix='c04_') as td:
         path = os.path.join(td, 'cart.p8.png')
@@ -158,7 +168,7 @@ def check_write(mem, version, code, dest_seed, case):
             before = None
             labs.append('dest_absent')
         try:
-            pfile.to_file(g, path)
+            pfile.to_file(g, path, **kw)
             err = None
         except Exception as e:
             err = e
@@ -219,7 +229,7 @@ def check_write(mem, version, code, dest_seed, case):
         if case.get('twice'):
             # the same cart written again in the same process, now over its own output
             try:
-                pfile.to_file(g, path)
+                pfile.to_file(g, path, **kw)
             except Exception as e:
                 raise Violation('writing the same fitting cart a second time raised %r' % e, case, 'second-write')
             data2 = open(path, 'rb').read()
@@ -278,10 +288,19 @@ def gen_small(seed):
     return mem, modes, version, code, ck, dest
 
 
+def small_case(seed, version):
+    case = {'seed': bytes(seed), 'kind': 'small', 'twice': seed[0] % 3 == 0}
+    if seed[-1] % 4 == 1:
+        case['lua_version'] = 8 if version == 0 else (0 if seed[-2] % 2 else version + 1)
+    if seed[-3] % 2 == 1:
+        case['explicit_none_label'] = True
+    return case
+
+
 def part_small(ctx):
     def body(seed):
         mem, modes, version, code, ck, dest = gen_small(seed)
-        labs = check_write(mem, version, code, dest, {'seed': bytes(seed), 'kind': 'small', 'twice': seed[0] % 3 == 0})
+        labs = check_write(mem, version, code, dest, small_case(seed, version))
         rich = sum(1 for (_n, lo, hi) in cartgen.REGIONS if cartgen.distinct_values(mem[lo:hi]) >= 16)
         if version == 0:
             labs.append('version0')
@@ -473,7 +492,7 @@ def replay(case):
     kind = case.get('kind')
     if kind == 'small':
         mem, modes, version, code, ck, dest = gen_small(case['seed'])
-        check_write(mem, version, code, dest, case)
+        check_write(mem, version, code, dest, dict(small_case(case['seed'], version), **case))
     elif kind == 'boundary':
         mem, _ = cartgen.memory_from_seed(b'\x01' + case['salt'])
         for label, code in boundary_cases(case['salt'], case['which']):
@@ -490,7 +509,7 @@ def replay(case):
 def vacuity(total, tier):
     msgs = []
     for lab in ('stored_raw', 'stored_compressed', 'refused', 'boundary_raw', 'boundary_compressed', 'boundary_header_edge',
-                'boundary_compressed_exact_fill',
+                'boundary_compressed_exact_fill', 'lua_object_of_other_version', 'label_fname_none_passed',
                 'dest_exists', 'dest_absent', 'dest_plain', 'dest_interlaced', 'dest_ancillary', 'dest_chunk_pHYs', 'convert', 'code_update60', 'code_table_rows', 'written_twice'):
         if total.classes.get(lab, 0) < 1:
             msgs.append('class %s never seen' % lab)
